@@ -9,7 +9,7 @@
    every state reachable from init_world (thread_stack_restored). *)
 From Coq Require Import ZArith List Bool.
 Require Import SC3.model.Cond SC3.model.Routine SC3.model.RtWake.
-Require Import SC3.proofs.C11_stack SC3.proofs.C11_machine SC3.proofs.C11_cond SC3.proofs.C11_final SC3.proofs.C11_rt.
+Require Import SC3.proofs.C11_stack SC3.proofs.C11_machine SC3.proofs.C11_cond SC3.proofs.C11_final SC3.proofs.C11_rt SC3.proofs.C11_whole.
 Import ListNotations.
 
 (* the documented table: every operation in every state (x = the record of routine r) *)
@@ -114,20 +114,88 @@ Theorem raised_next_then_stopstream_refuted_unpatched :
   = [Ret (VInt 5); Ret VNone; Exc ERuntime; Ret (VInt 5)].
 Proof. exact raised_then_stopstream_refuted_unpatched_l. Qed.
 
-(* ---- Condition / FlowVar (cell machine of model/Cond.v, all operation sequences) ----------
-   FULL statements (not proved as such; composition with the scheduler is covered by the
-   correspondence of condition programs only):
-     cond_resume_exactly_once_after_signal: in every run of every program, the number of times
-       the scheduler calls next() on a routine because of a wait on c equals the number of its
-       waits that were followed by a signal with the test true / an unhang / a binding;
-     cond_never_before: no such call happens before that signal;
-     flowvar_single_assignment: in every run the value of a bound FlowVar never changes.
-   PROVED: the same statements for the cell machine that the interpreter delegates to
-   (do_signal/do_unhang/do_flowset/AWait are cell_signal/cell_unhang/cell_flowset/cell_wait plus
-   enqueue_all, see signal_hands_over_to_scheduler), and for the queue: every routine handed over
-   has exactly ONE pending wake-up afterwards (one_pending_wakeup_per_routine) - wake-ups emitted
-   for a routine that is already queued are merged into one, they are not lost and not doubled. *)
-Theorem cond_resume_exactly_once_after_signal_partial :
+(* ---- Condition / FlowVar -------------------------------------------------------------------------
+   Whole-run statements (every program, every history of operations applied from outside and from
+   inside bodies, nested next at any depth, any fuel; proofs/C11_whole.v: one frame induction over
+   fuel and scripts for predicates on cells and queue), followed by the statements about the cell
+   machine of model/Cond.v for ALL sequences of cell operations (the interpreter delegates to it). *)
+
+(* never before: while the test of cell c is false (a FlowVar: unbound) and nobody calls unhang / test= /
+   value= on c - signal() may be called any number of times, everything else is allowed, from anywhere -
+   the routines L waiting on c are still waiting on it, in order, after every operation: c hands none of
+   them to the scheduler *)
+Theorem cond_never_before : forall defs c L fuel ops w,
+  (forall i d, nth_error defs i = Some d -> acts_allowed (no_release c) (d_script d)) ->
+  forallb (op_allowed (no_release c)) ops = true ->
+  cell_holds c (still_waiting L) w ->
+  cell_holds c (still_waiting L) (fst (run patched defs fuel ops w)) /\
+  Forall (fun p => cell_holds c (still_waiting L) (snd p)) (snd (run patched defs fuel ops w)).
+Proof. exact never_before_whole_run_l. Qed.
+
+(* exactly once, in invariant form: (1) in every reachable state the scheduler holds at most ONE pending
+   wake-up per routine; (2) a signal whose test holds / an unhang empties the waiting list and leaves every
+   waiter with exactly one pending wake-up (also if it already had one) and the others with what they had;
+   (3) a scheduler tick removes the head wake-up and makes exactly one next() call, on its routine, and by (1)
+   that was this routine's only pending wake-up.  (Not stated as a count over a trace; that a pending
+   wake-up reaches the head needs enough ticks and is not part of the statement.) *)
+Theorem cond_resume_exactly_once_after_signal :
+  (forall defs cs fuel ops,
+     one_pending (queue (fst (run patched defs fuel ops (init_world defs cs)))) /\
+     Forall (fun p => one_pending (queue (snd p))) (snd (run patched defs fuel ops (init_world defs cs)))) /\
+  (forall c w x t, nth_error (cells w) c = Some x -> cell_err x = None -> cell_test x = true -> cur_secs w = Some t ->
+     snd (do_signal c w) = Ret VNone /\
+     nth_error (cells (fst (do_signal c w))) c = Some (mkCell (ckind_of x) []) /\
+     queue (fst (do_signal c w)) = enqueue_all t (waiting x) (queue w) /\
+     (forall r, In r (waiting x) -> pend (queue (fst (do_signal c w))) r = 1%nat) /\
+     (forall r, ~ In r (waiting x) -> pend (queue (fst (do_signal c w))) r = pend (queue w) r)) /\
+  (forall c w x t, nth_error (cells w) c = Some x -> cur_secs w = Some t ->
+     snd (do_unhang c w) = Ret VNone /\
+     nth_error (cells (fst (do_unhang c w))) c = Some (mkCell (ckind_of x) []) /\
+     queue (fst (do_unhang c w)) = enqueue_all t (waiting x) (queue w)) /\
+  (forall defs fuel w t r q, queue w = (t, r) :: q ->
+     top patched defs fuel OTick w =
+       (let '(w2, o) := next_ patched defs fuel r VAwake (set_main_secs t (set_queue q w)) in
+        match o with
+        | Ret (VInt d) => (set_queue (enqueue (t + d) r (queue w2)) w2, o)
+        | Ret (VFloat d) => (set_queue (enqueue (t + d) r (queue w2)) w2, o)
+        | _ => (w2, o)
+        end) /\
+     (one_pending (queue w) -> pend q r = 0%nat)).
+Proof. exact (conj queue_one_pending_run (conj signal_hands_over_l (conj unhang_hands_over_l tick_once_l))). Qed.
+
+(* a FlowVar bound to v (any value: 0, None, False, '', [] included) stays bound to v after every operation
+   of every history of every program, and every further assignment raises and changes nothing; an unbound one
+   is bound by the assignment, which hands over all waiters *)
+Theorem flowvar_single_assignment :
+  (forall defs c v fuel ops w, cell_holds c (bound_to v) w ->
+     cell_holds c (bound_to v) (fst (run patched defs fuel ops w)) /\
+     Forall (fun p => cell_holds c (bound_to v) (snd p)) (snd (run patched defs fuel ops w)) /\
+     forall v', do_flowset c v' (fst (run patched defs fuel ops w)) = (fst (run patched defs fuel ops w), Exc EException)) /\
+  (forall c v w x t, nth_error (cells w) c = Some x -> ckind_of x = CFlow None -> cur_secs w = Some t ->
+     snd (do_flowset c v w) = Ret VNone /\
+     nth_error (cells (fst (do_flowset c v w))) c = Some (mkCell (CFlow (Some v)) []) /\
+     queue (fst (do_flowset c v w)) = enqueue_all t (waiting x) (queue w)).
+Proof. exact (conj flowvar_whole_run_l flowset_binds_l). Qed.
+
+(* the hypotheses are met by real runs: routine 0 hangs on condition 0 (test false); signals, a second routine
+   and ticks do not release it.  FlowVar 1 is bound to 0 (a falsy value) and stays bound. *)
+Example whole_run_hypotheses_met :
+  let defs := [mkDef Gen false [AWait 0; AYield (VStr 0)];
+               mkDef Gen false [ACall (CSignal 0) true; ACall (CFlowSet 1 (VInt 5)) true; AYield (VInt 0)]] in
+  let w := fst (run patched defs 10 [OCall (CFlowSet 1 (VInt 0)); OCall (CPlay 0); OTick] (init_world defs [CCond false; CFlow None])) in
+  cell_holds 0 (still_waiting [0%nat]) w /\ cell_holds 1 (bound_to (VInt 0)) w /\
+  forallb (op_allowed (no_release 0)) [OCall (CSignal 0); OCall (CPlay 1); OTick; OTick; OCall (CNext 1 VNone)] = true /\
+  (forall i d, nth_error defs i = Some d -> acts_allowed (no_release 0) (d_script d)).
+Proof.
+  vm_compute. split; [eexists; split; [reflexivity | split; [reflexivity | split; [reflexivity | exists []; reflexivity]]] |].
+  split; [eexists; split; reflexivity |]. split; [reflexivity |].
+  intros [| [| i]] d E; simpl in E; inversion E; subst; intros k catch I; simpl in I;
+    repeat (destruct I as [I | I]; [inversion I; subst; reflexivity |]); try contradiction.
+  destruct i; discriminate.
+Qed.
+
+(* ---- the cell machine of model/Cond.v, all sequences of cell operations ------------------------ *)
+Theorem cell_machine_wakeup_conservation :
   (forall (ops : list cop) (c : cell) (r : nat),
      (count_occ Nat.eq_dec (snd (crun ops c)) r + count_occ Nat.eq_dec (waiting (fst (crun ops c))) r
       = count_occ Nat.eq_dec (waiting c) r + hung_waits r ops c)%nat) /\
@@ -136,14 +204,14 @@ Theorem cond_resume_exactly_once_after_signal_partial :
      snd (cstep CoSignal (fst (cstep CoSignal c))) = []).
 Proof. exact (conj crun_conservation signal_exactly_once). Qed.
 
-Theorem cond_never_before_partial :
+Theorem cell_machine_never_before :
   (forall (o : cop) (c : cell) (r : nat), In r (snd (cstep o c)) ->
      In r (waiting c) /\
      (o = CoUnhang \/ (cell_test (fst (cstep o c)) = true /\ (o = CoSignal \/ exists v, o = CoFlowSet v)))) /\
   (forall (ops : list cop) (c : cell), cell_test c = false -> forallb quiet ops = true -> snd (crun ops c) = []).
 Proof. exact (conj wake_only_when_holds never_before). Qed.
 
-Theorem flowvar_single_assignment_partial :
+Theorem cell_machine_flowvar_single_assignment :
   (forall (ops : list cop) (c : cell) (v : val),
      ckind_of c = CFlow (Some v) -> ckind_of (fst (crun ops c)) = CFlow (Some v)) /\
   (forall (c : cell) (v v' : val),
@@ -264,6 +332,9 @@ Proof. vm_compute. split; [| reflexivity]. eexists. split; [reflexivity | split;
 
 Print Assumptions thread_stack_restored.
 Print Assumptions done_is_absorbing_until_reset.
-Print Assumptions cond_resume_exactly_once_after_signal_partial.
+Print Assumptions cell_machine_wakeup_conservation.
+Print Assumptions cond_resume_exactly_once_after_signal.
+Print Assumptions cond_never_before.
+Print Assumptions flowvar_single_assignment.
 Print Assumptions one_pending_wakeup_per_routine.
 Print Assumptions rt_wakeup_restores_thread_stack.
